@@ -204,6 +204,8 @@ func attribute(f *spec.Attr) {
 	}
 	fn := func() { validations(f) }
 	switch {
+	case f.ErrName:
+		dsl.ErrorName(f.Name, typeArg(f.Type), fn)
 	case f.Sec == "username":
 		dsl.Username(f.Name, typeArg(f.Type), fn)
 	case f.Sec == "password":
@@ -275,6 +277,9 @@ func mapped(attr, wire string) string {
 func errorResponses(errs []*spec.ErrorDef) {
 	for _, e := range errs {
 		e := e
+		if e.Inherit != "" {
+			continue // mapped where it is inherited from
+		}
 		if len(e.Headers) == 0 {
 			dsl.Response(e.Name, e.Status)
 			continue
